@@ -238,137 +238,196 @@ func runC10(cfg lib.Cfg) error {
 		}
 		add(d, g, "random", maxWords)
 	}
-	// job file for the child (inside the output directory, never under /tmp)
-	job := make([]jobDecl, len(plans))
-	for i, p := range plans {
-		job[i] = jobDecl{JSON: p.d.JSON, Base: p.base, Muts: p.muts}
-	}
-	jobFile := filepath.Join(cfg.Out, "job_C10.json")
-	raw, _ := json.Marshal(job)
-	if err := os.MkdirAll(cfg.Out, 0o755); err != nil {
-		return err
-	}
-	if err := os.WriteFile(jobFile, raw, 0o644); err != nil {
-		return err
-	}
-	defer os.Remove(jobFile)
-
-	results := make([][]*jobRes, len(plans))
-	for i := range results {
-		results[i] = make([]*jobRes, len(plans[i].muts))
-	}
-	killedAt := map[[2]int]string{}
-	sd, sr := 0, 0
-	for guard := 0; guard < 200; guard++ {
-		lines, killed := runChild(jobFile, sd, sr)
-		lastD, lastR, done := -1, -1, false
-		for _, l := range lines {
-			if strings.HasPrefix(l, "@@CALL ") {
-				fmt.Sscanf(l, "@@CALL %d %d", &lastD, &lastR)
-				continue
-			}
-			var jr jobRes
-			if err := json.Unmarshal([]byte(l), &jr); err != nil {
-				return fmt.Errorf("child output: %v: %.100s", err, l)
-			}
-			if jr.Done {
-				done = true
-				continue
-			}
-			x := jr
-			results[jr.Decl][jr.Run] = &x
-		}
-		if done {
-			break
-		}
-		if lastD < 0 {
-			return fmt.Errorf("child failed before the first call: %s", killed)
-		}
-		killedAt[[2]int{lastD, lastR}] = killed
-		sd, sr = lastD, lastR+1
-		if sr >= len(plans[sd].muts) {
-			sd, sr = sd+1, 0
-		}
-		if sd >= len(plans) {
-			break
-		}
-	}
-
 	totalRuns, maxHeap := 0, uint64(0)
 	kinds := map[string]int{}
-	for pi, p := range plans {
-		// segments: a panic or a kill ends the use of that decoder instance
-		start := 0
-		for start < len(p.muts) {
-			ok, msg, failInput := true, "", ""
-			var runs []string
-			var descs []string
-			end := start
-			clenBound := big.NewInt(1)
-			for ; end < len(p.muts); end++ {
-				m := p.muts[end]
-				in := m.Apply(p.base)
-				jr := results[pi][end]
-				fail := func(s string) {
-					if ok {
-						ok, msg, failInput = false, fmt.Sprintf("%s: type %s, valid encoding of %d bytes %s", s, abi.TypeString(p.d.GoType), len(p.base), m.String()), abi.Hex(in)
-					}
+	var extractor *abi.Extractor
+	// process runs the plans on the implementation (child process), applies the
+	// direct oracles and emits the cases; extraOnly: the extra volume of the
+	// thorough tier, evaluated by the extracted model only (a case whose direct
+	// oracle fails is still added to the shards)
+	process := func(plans []plan, extraOnly bool) error {
+		// job file for the child (inside the output directory, never under /tmp)
+		job := make([]jobDecl, len(plans))
+		for i, p := range plans {
+			job[i] = jobDecl{JSON: p.d.JSON, Base: p.base, Muts: p.muts}
+		}
+		jobFile := filepath.Join(cfg.Out, "job_C10.json")
+		raw, _ := json.Marshal(job)
+		if err := os.MkdirAll(cfg.Out, 0o755); err != nil {
+			return err
+		}
+		if err := os.WriteFile(jobFile, raw, 0o644); err != nil {
+			return err
+		}
+		defer os.Remove(jobFile)
+
+		results := make([][]*jobRes, len(plans))
+		for i := range results {
+			results[i] = make([]*jobRes, len(plans[i].muts))
+		}
+		killedAt := map[[2]int]string{}
+		sd, sr := 0, 0
+		for guard := 0; guard < 200; guard++ {
+			lines, killed := runChild(jobFile, sd, sr)
+			lastD, lastR, done := -1, -1, false
+			for _, l := range lines {
+				if strings.HasPrefix(l, "@@CALL ") {
+					fmt.Sscanf(l, "@@CALL %d %d", &lastD, &lastR)
+					continue
 				}
-				totalRuns++
-				kinds[m.Kind]++
-				descs = append(descs, m.String())
-				if jr == nil {
-					why := killedAt[[2]int{pi, end}]
-					fail("decoding did not finish (" + why + ")")
-					runs = append(runs, fmt.Sprintf("(%s, %d, (SO 2 [] 0%%nat 0%%nat))", m.Coq(), abi.HashBytes(in)))
-					end++
-					break
+				var jr jobRes
+				if err := json.Unmarshal([]byte(l), &jr); err != nil {
+					return fmt.Errorf("child output: %v: %.100s", err, l)
 				}
-				obs := jr.Obs
-				cost := abi.Cost(p.d.Root, len(in))
-				bound := new(big.Int).Set(cost)
-				if obs.Kind == "ok" && bound.Sign() == 0 {
-					bound = big.NewInt(1)
+				if jr.Done {
+					done = true
+					continue
 				}
-				if clenBound.Cmp(new(big.Int).Add(bound, big.NewInt(1))) < 0 {
-					clenBound = new(big.Int).Add(bound, big.NewInt(1))
-				}
-				if jr.Heap > maxHeap {
-					maxHeap = jr.Heap
-				}
-				switch obs.Kind {
-				case "panic":
-					fail("Scan panicked (" + obs.PanicMsg + ")")
-				default:
-					if !obs.CellsInside() {
-						fail("decoded cell is not a sub-range of the input")
-					}
-					if big.NewInt(int64(obs.N)).Cmp(bound) > 0 {
-						fail(fmt.Sprintf("%d rows for %d bytes of input exceed the bound %s", obs.N, len(in), bound))
-					}
-					if big.NewInt(int64(obs.CLen)).Cmp(clenBound) > 0 {
-						fail(fmt.Sprintf("row collection grew to %d, bound %s", obs.CLen, clenBound))
-					}
-					// bytes allocated by the call: rows * (row header + cells) twice (collection + Bytes copy)
-					hb := new(big.Int).Mul(bound, big.NewInt(int64(2*(24+24*(p.d.NCols+1))+64)))
-					hb.Add(hb, big.NewInt(1<<16))
-					if new(big.Int).SetUint64(jr.Heap).Cmp(hb) > 0 {
-						fail(fmt.Sprintf("call allocated %d bytes for %d bytes of input (bound %s)", jr.Heap, len(in), hb))
-					}
-				}
-				runs = append(runs, fmt.Sprintf("(%s, %d, %s)", m.Coq(), abi.HashBytes(in), obs.Coq()))
-				if obs.Kind == "panic" {
-					end++
-					break
-				}
+				x := jr
+				results[jr.Decl][jr.Run] = &x
 			}
-			nontriv := p.d.NCols > 0 && (p.d.Root.Depth() > 0 || p.d.Root.Dynamic()) && end-start > 20
-			out.Add(lib.Case{
-				Coq: fmt.Sprintf("CMal %s %s %s", abi.CoqEvent(p.d.Event), abi.CB(p.base), lib.CList(runs)),
-				Desc: malDesc{Op: "malformed", JSON: p.d.JSON, Type: abi.TypeString(p.d.GoType), Base: abi.Hex(p.base),
-					Muts: descs, Input: failInput},
-				Kind: "malformed-" + p.kind, Nontrivial: nontriv, OracleOK: ok, OracleMsg: msg, Size: len(p.base) + len(failInput)})
-			start = end
+			if done {
+				break
+			}
+			if lastD < 0 {
+				return fmt.Errorf("child failed before the first call: %s", killed)
+			}
+			killedAt[[2]int{lastD, lastR}] = killed
+			sd, sr = lastD, lastR+1
+			if sr >= len(plans[sd].muts) {
+				sd, sr = sd+1, 0
+			}
+			if sd >= len(plans) {
+				break
+			}
+		}
+
+		for pi, p := range plans {
+			// segments: a panic or a kill ends the use of that decoder instance
+			start := 0
+			for start < len(p.muts) {
+				ok, msg, failInput := true, "", ""
+				var runs, sxRuns []string
+				var descs []string
+				end := start
+				clenBound := big.NewInt(1)
+				for ; end < len(p.muts); end++ {
+					m := p.muts[end]
+					in := m.Apply(p.base)
+					jr := results[pi][end]
+					fail := func(s string) {
+						if ok {
+							ok, msg, failInput = false, fmt.Sprintf("%s: type %s, valid encoding of %d bytes %s", s, abi.TypeString(p.d.GoType), len(p.base), m.String()), abi.Hex(in)
+						}
+					}
+					totalRuns++
+					kinds[m.Kind]++
+					descs = append(descs, m.String())
+					if jr == nil {
+						why := killedAt[[2]int{pi, end}]
+						fail("decoding did not finish (" + why + ")")
+						runs = append(runs, fmt.Sprintf("(%s, %d, (SO 2 [] 0%%nat 0%%nat))", m.Coq(), abi.HashBytes(in)))
+						sxRuns = append(sxRuns, fmt.Sprintf("(%s %d (so 2 () 0 0))", m.Sx(), abi.HashBytes(in)))
+						end++
+						break
+					}
+					obs := jr.Obs
+					cost := abi.Cost(p.d.Root, len(in))
+					bound := new(big.Int).Set(cost)
+					if obs.Kind == "ok" && bound.Sign() == 0 {
+						bound = big.NewInt(1)
+					}
+					if clenBound.Cmp(new(big.Int).Add(bound, big.NewInt(1))) < 0 {
+						clenBound = new(big.Int).Add(bound, big.NewInt(1))
+					}
+					if jr.Heap > maxHeap {
+						maxHeap = jr.Heap
+					}
+					switch obs.Kind {
+					case "panic":
+						fail("Scan panicked (" + obs.PanicMsg + ")")
+					default:
+						if !obs.CellsInside() {
+							fail("decoded cell is not a sub-range of the input")
+						}
+						if big.NewInt(int64(obs.N)).Cmp(bound) > 0 {
+							fail(fmt.Sprintf("%d rows for %d bytes of input exceed the bound %s", obs.N, len(in), bound))
+						}
+						if big.NewInt(int64(obs.CLen)).Cmp(clenBound) > 0 {
+							fail(fmt.Sprintf("row collection grew to %d, bound %s", obs.CLen, clenBound))
+						}
+						// bytes allocated by the call: rows * (row header + cells) twice (collection + Bytes copy)
+						hb := new(big.Int).Mul(bound, big.NewInt(int64(2*(24+24*(p.d.NCols+1))+64)))
+						hb.Add(hb, big.NewInt(1<<16))
+						if new(big.Int).SetUint64(jr.Heap).Cmp(hb) > 0 {
+							fail(fmt.Sprintf("call allocated %d bytes for %d bytes of input (bound %s)", jr.Heap, len(in), hb))
+						}
+					}
+					runs = append(runs, fmt.Sprintf("(%s, %d, %s)", m.Coq(), abi.HashBytes(in), obs.Coq()))
+					if extractor != nil {
+						sxRuns = append(sxRuns, fmt.Sprintf("(%s %d %s)", m.Sx(), abi.HashBytes(in), obs.Sx()))
+					}
+					if obs.Kind == "panic" {
+						end++
+						break
+					}
+				}
+				nontriv := p.d.NCols > 0 && (p.d.Root.Depth() > 0 || p.d.Root.Dynamic()) && end-start > 20
+				c := lib.Case{
+					Coq: fmt.Sprintf("CMal %s %s %s", abi.CoqEvent(p.d.Event), abi.CB(p.base), lib.CList(runs)),
+					Desc: malDesc{Op: "malformed", JSON: p.d.JSON, Type: abi.TypeString(p.d.GoType), Base: abi.Hex(p.base),
+						Muts: descs, Input: failInput},
+					Kind: "malformed-" + p.kind, Nontrivial: nontriv, OracleOK: ok, OracleMsg: msg, Size: len(p.base) + len(failInput)}
+				if !extraOnly || !ok {
+					out.Add(c)
+				}
+				if extractor != nil {
+					extractor.Add(c, fmt.Sprintf("(mal %s %s (%s))", abi.SxEvent(p.d.Event), abi.SxBytes(p.base), strings.Join(sxRuns, " ")), len(sxRuns))
+				}
+				start = end
+			}
+		}
+		return nil
+	}
+	nExtra := 0
+	if cfg.Thorough() {
+		nExtra = 300
+		if v, err := strconv.Atoi(os.Getenv("VERIF_ABI_EXTRA")); err == nil { // experiments: volume of the extra stream
+			nExtra = v
+		}
+		var err error
+		if extractor, err = abi.NewExtractor("c10", 8, 12); err != nil {
+			return fmt.Errorf("extracted evaluator: %w", err)
+		}
+	}
+	if err := process(plans, false); err != nil {
+		return err
+	}
+	// thorough: extra declarations, evaluated by the extracted model only
+	for done := 0; done < nExtra; {
+		plans = nil
+		for i := 0; len(plans) < 40 && i < 4000; i++ {
+			g := &abi.Gen{R: r.Fork(), MaxDepth: 2, AllowOut: i%5 == 4}
+			d, err := abi.NewDecl(fmt.Sprintf("X%d_%d", done, i), g.Inputs(true))
+			if err != nil {
+				return err
+			}
+			if d.Panic != "" || (d.Root.Depth() == 0 && !d.Root.Dynamic() && i%4 != 0) {
+				continue
+			}
+			add(d, g, "extracted-only", 16)
+		}
+		if len(plans) == 0 {
+			break
+		}
+		done += len(plans)
+		if err := process(plans, true); err != nil {
+			return err
+		}
+	}
+	if extractor != nil {
+		if err := extractor.Finish(out); err != nil {
+			return fmt.Errorf("extracted evaluator: %w", err)
 		}
 	}
 	for k, v := range kinds {
@@ -376,7 +435,7 @@ func runC10(cfg lib.Cfg) error {
 	}
 	out.Notes["scans"] = totalRuns
 	out.Notes["max_bytes_allocated_by_one_call"] = maxHeap
-	out.Notes["streams"] = "per declaration one valid encoding, then: every truncation at each 32-byte boundary and +-1; every 32-byte word replaced by each of 0,1,31,32,len-31,len,len+1,2^31,2^32,2^63-32,2^63-1,2^63,2^64-32,2^64-1,2^255 (exhaustive per encoding); random bytes, word soups and low-byte flips; all through one reused Result in a child process (2 s watchdog per call, 768 MiB heap limit)"
+	out.Notes["streams"] = "per declaration one valid encoding, then: every truncation length (encodings <= 512 bytes; else each 32-byte boundary and +-1); every offset/length/count word replaced by the boundary values relative to the sub-slice the decoder reads it against (layout known from the harness encoder); every 32-byte word replaced by each of 0,1,31,32,len-31,len,len+1,2^31,2^32,2^63-32,2^63-1,2^63,2^64-32,2^64-1,2^255 (exhaustive per encoding); random bytes, word soups and low-byte flips; all through one reused Result in a child process (2 s watchdog per call, 768 MiB heap limit)"
 	return out.Flush()
 }
 
